@@ -20,7 +20,7 @@ RULE = (
     "the same tree, against EVERY symbol sequence up to a length L over {a, b, x} (x = a symbol no pattern names). "
     "Both tiers: all 12 + 1152 trees with <= 2 leaves and each of them followed by '$' (1164 more), L = 5 (quick) / 6 "
     "(thorough). The 221184 trees with 3 leaves: thorough enumerates ALL of them with L = 3 and every 4th additionally "
-    "with L = 4; quick takes every 8th tree (systematic sample, 27648 trees) with L = 3 (labels box3_trees_length_*). "
+    "with L = 4; quick takes every 10th tree (systematic sample, 22119 trees) with L = 3 (labels box3_trees_length_*). "
     "Each maximal sequence is fed to a fresh Matcher; after every prefix the check compares match_symbol's result, "
     "is_complete() and valid_next_symbols() with the reference, so one 'evaluation' in this part is one (pattern, sequence) "
     "pair, every sequence of length 0..L counted once. coverage.exhaustive = true means: every box named above for the "
@@ -460,8 +460,8 @@ def run_box(spec, ctx, Matcher):
                 break
             if ctx.thorough:
                 L = 4 if i % 4 == 0 else 3       # every tree with length <= 3, every 4th also with length 4
-            elif i % 8:
-                continue                          # quick: a systematic 1/8 sample of the 3-leaf trees
+            elif i % 10:
+                continue                          # quick: a systematic 1/10 sample of the 3-leaf trees
             else:
                 L = 3
             stats["box3_trees_length_%d" % L] += 1
@@ -633,7 +633,7 @@ def run_shard(spec, ctx):
             seq = walk(judge, scheme, picks)
             evaluate_case(Matcher, text, tree, judge, seq, col, "generated")
 
-        run_given(generated_cases(), body, ctx, ctx.pick(1500, 12000))
+        run_given(generated_cases(), body, ctx, ctx.pick(800, 12000))
     else:
         pats = real_patterns()
         names = parse_code_names()
@@ -657,7 +657,7 @@ def run_shard(spec, ctx):
         longest = max(range(len(usable)), key=lambda i: R.leaves(usable[i][2]))
         tickets = list(range(len(usable))) + [longest, longest]
         strat = st.tuples(st.sampled_from(tickets), st.lists(st.integers(0, 255), min_size=1, max_size=12))
-        run_given(strat, body, ctx, ctx.pick(1500, 8000))
+        run_given(strat, body, ctx, ctx.pick(1000, 8000))
 
 
 def replay(data, col):
